@@ -1,1 +1,89 @@
-From Verif Require Import Base.
+(* C15 — OPEN / NOTIFICATION / capability codecs round-trip and are strict.
+   Property theorems only; proofs live in Proofs/PacketProofs.v. *)
+From Verif Require Import Base Consts Packet PacketSpec PacketProofs.
+
+(* every NOTIFICATION that fits a message reaches the wire as one well-formed
+   message of type 3 carrying exactly code, subcode, data; decoding that body
+   gives the notification back *)
+Theorem c15_notif_roundtrip : forall n,
+  notif_repr n = true ->
+  spec_frame_parse (notif_encode n) = Some (3, spec_notif_body n)
+  /\ notif_decode (spec_notif_body n) = Some n.
+Proof. exact notif_roundtrip. Qed.
+Print Assumptions c15_notif_roundtrip.
+
+(* an accepted NOTIFICATION body is exactly code, subcode, data; re-encoding reproduces it *)
+Theorem c15_notif_inverse : forall b n,
+  notif_decode b = Some n -> spec_notif_body n = b /\ notif_body n = b.
+Proof. exact notif_decode_inverse. Qed.
+Print Assumptions c15_notif_inverse.
+
+(* only bodies lacking the fixed fields are refused *)
+Theorem c15_notif_reject_iff : forall b, notif_decode b = None <-> blen b < 2.
+Proof. exact notif_decode_none_iff. Qed.
+Print Assumptions c15_notif_reject_iff.
+
+(* decode (encode o) = o for every representable OPEN *)
+Theorem c15_open_roundtrip : forall o,
+  open_repr o = true -> open_decode (spec_open_body o) = Ok o.
+Proof. exact open_roundtrip. Qed.
+Print Assumptions c15_open_roundtrip.
+
+(* strictness: whatever the decoder accepts is the canonical encoding of a
+   representable value: fixed fields present, every nested length octet equal
+   to the bytes that follow, nothing left over *)
+Theorem c15_open_strict : forall b o,
+  wf_bytes b = true -> open_decode b = Ok o ->
+  open_repr o = true /\ spec_open_body o = b.
+Proof. exact open_decode_inverse. Qed.
+Print Assumptions c15_open_strict.
+
+(* re-encoding an accepted OPEN body reproduces it (as one well-formed message) *)
+Theorem c15_open_reencode : forall b o,
+  wf_bytes b = true -> open_decode b = Ok o ->
+  open_encode o = Some (spec_frame_enc 1 b).
+Proof. exact open_reencode. Qed.
+Print Assumptions c15_open_reencode.
+
+(* the encoder is the specification encoder on representable values *)
+Theorem c15_open_encode_spec : forall o,
+  open_repr o = true -> open_body o = Some (spec_open_body o).
+Proof. exact open_body_spec. Qed.
+Print Assumptions c15_open_encode_spec.
+
+(* the decoder returns a value or an error for every byte string: no panic, no partial result *)
+Theorem c15_open_total : forall b,
+  wf_bytes b = true -> open_decode b <> Panic /\ open_decode b <> OutOfFuel.
+Proof. exact open_decode_total. Qed.
+Print Assumptions c15_open_total.
+
+(* add-path tuples: round trip for send/receive 1..3 *)
+Theorem c15_addpath_roundtrip : forall l,
+  l <> [] -> forallb aptuple_repr l = true ->
+  aptuples_decode (flat_map spec_aptuple_enc l) = Ok l.
+Proof. exact aptuples_roundtrip. Qed.
+Print Assumptions c15_addpath_roundtrip.
+
+(* ... and nothing else is accepted *)
+Theorem c15_addpath_strict : forall b l,
+  wf_bytes b = true -> aptuples_decode b = Ok l ->
+  l <> [] /\ forallb aptuple_repr l = true /\ flat_map spec_aptuple_enc l = b.
+Proof. exact aptuples_decode_inverse. Qed.
+Print Assumptions c15_addpath_strict.
+
+Theorem c15_addpath_total : forall b,
+  wf_bytes b = true -> aptuples_decode b <> Panic /\ aptuples_decode b <> OutOfFuel.
+Proof. exact aptuples_decode_total. Qed.
+Print Assumptions c15_addpath_total.
+
+Theorem c15_addpath_cap : forall ts,
+  forallb aptuple_repr ts = true ->
+  addpath_cap ts = mkCap 69 (flat_map spec_aptuple_enc ts).
+Proof. exact addpath_cap_spec. Qed.
+Print Assumptions c15_addpath_cap.
+
+(* multiprotocol capability: code 1, AFI(2) reserved(1)=0 SAFI(1) *)
+Theorem c15_mp_cap : forall afi safi,
+  afi < 65536 -> mp_cap afi safi = mkCap 1 [afi / 256; afi mod 256; 0; safi].
+Proof. exact mp_cap_spec. Qed.
+Print Assumptions c15_mp_cap.
